@@ -17,6 +17,8 @@ package sequtil
 //	func sequtil.TranslateReadingFrames(seq)       -> clause C14/frames            {seq}
 //	func sequtil.AminoName(aa)                     -> clause C14/aminoname         {aa}
 //	func sequtil.CanonicalSubsequences(seq, k)     -> clause C18/canonical-stop    {seq, k, stop}
+//	func sequtil.CanonicalSubsequences(seq, k) x 2 -> clause C12/canonical-interleaved {seq1, seq2, k}
+//	                                                  (two iterators consumed interleaved / nested; the same Run is also registered as C18/canonical-interleaved)
 //
 // All oracles below are written from the property statements in
 // /verif/properties.jsonl (complement switch, base-4 positional packing, NCBI
@@ -25,6 +27,7 @@ package sequtil
 import (
 	"bytes"
 	"fmt"
+	"iter"
 	"math/rand"
 	"testing"
 )
@@ -1197,8 +1200,205 @@ func vzGenCanonicalStop(g *vrGen) {
 }
 
 // ---------------------------------------------------------------------------
+// C12 / C18: two CanonicalSubsequences iterators alive at the same time
+// ---------------------------------------------------------------------------
+
+const vzSigShared = "sequtil:canonical-iterators-share-state"
+
+// vzRange ranges once over the iterator VALUE it and copies the items on receipt.
+func vzRange(it iter.Seq[[]byte], limit int) (items [][]byte, runaway bool) {
+	for b := range it {
+		if len(items) >= limit {
+			return items, true
+		}
+		items = append(items, append([]byte(nil), b...))
+	}
+	return items, false
+}
+
+func vzRunCanonicalInterleaved(in map[string]any) vrResult {
+	seq1, seq2, k := vrBytes(in["seq1"]), vrBytes(in["seq2"]), vrInt(in["k"])
+	if k < 1 {
+		return vrResult{OK: true, Trivial: true, Observed: "k < 1: outside the statement"}
+	}
+	if !vzOver(seq1, vzAlpha10) || !vzOver(seq2, vzAlpha10) {
+		return vrResult{OK: true, Trivial: true, Observed: "seq1/seq2 not over aAcCgGtTnN: outside the statement"}
+	}
+	want1, want2 := vzCanon(seq1, k), vzCanon(seq2, k)
+	s1, s2 := append([]byte(nil), seq1...), append([]byte(nil), seq2...)
+	limit := len(seq1) + len(seq2) + 8
+	exp := fmt.Sprintf("first iterator: %s; second iterator: %s", vzItems(want1), vzItems(want2))
+	res := vrResult{OK: true, Trivial: len(want1) == 0 || len(want2) == 0}
+	where := ""
+	bad := func(sig, obs string) {
+		res = vrResult{OK: false, Observed: where + ": " + obs, Expected: exp, Signature: sig}
+	}
+	// check compares one complete pass with the oracle.
+	check := func(sig, which string, got [][]byte, runaway bool, want [][]byte) bool {
+		if runaway || !vzSameItems(got, want) {
+			bad(sig, fmt.Sprintf("%s iterator yields %s (runaway=%v)", which, vzItems(got), runaway))
+			return false
+		}
+		return true
+	}
+	pan := vrCatch(func() {
+		// Each sequence alone (a failure here does not need two iterators).
+		where = "one iterator at a time"
+		g1, r1 := vzRange(CanonicalSubsequences(s1, k), limit)
+		if !check("generic", "first", g1, r1, want1) {
+			return
+		}
+		g2, r2 := vzRange(CanonicalSubsequences(s2, k), limit)
+		if !check("generic", "second", g2, r2, want2) {
+			return
+		}
+		// Interleaved: both iterators created first, then pulled alternately.
+		where = "two iterators created, then pulled alternately (iter.Pull)"
+		it1, it2 := CanonicalSubsequences(s1, k), CanonicalSubsequences(s2, k)
+		next1, stop1 := iter.Pull(it1)
+		defer stop1()
+		next2, stop2 := iter.Pull(it2)
+		defer stop2()
+		var a, b [][]byte
+		done1, done2 := false, false
+		for n := 0; (!done1 || !done2) && n < limit; n++ {
+			if !done1 {
+				if x, ok := next1(); ok {
+					a = append(a, append([]byte(nil), x...))
+				} else {
+					done1 = true
+				}
+			}
+			if !done2 {
+				if x, ok := next2(); ok {
+					b = append(b, append([]byte(nil), x...))
+				} else {
+					done2 = true
+				}
+			}
+		}
+		if !check(vzSigShared, "first", a, !done1, want1) || !check(vzSigShared, "second", b, !done2, want2) {
+			return
+		}
+		// Nested: for every item of the first, a complete pass over the second
+		// (the same iterator value it2 every time).
+		where = "nested: for each item of the first iterator a complete range over the second iterator value"
+		a = nil
+		for x := range it1 {
+			if len(a) >= limit {
+				bad(vzSigShared, "first iterator does not end")
+				return
+			}
+			a = append(a, append([]byte(nil), x...))
+			inner, ri := vzRange(it2, limit)
+			if !check(vzSigShared, fmt.Sprintf("second (inner pass %d)", len(a)), inner, ri, want2) {
+				return
+			}
+		}
+		if !check(vzSigShared, "first (outer)", a, false, want1) {
+			return
+		}
+		// The other way round, with fresh iterator values.
+		where = "nested: for each item of the second iterator a complete range over a fresh first iterator"
+		b = nil
+		for x := range CanonicalSubsequences(s2, k) {
+			if len(b) >= limit {
+				bad(vzSigShared, "second iterator does not end")
+				return
+			}
+			b = append(b, append([]byte(nil), x...))
+			inner, ri := vzRange(CanonicalSubsequences(s1, k), limit)
+			if !check(vzSigShared, fmt.Sprintf("first (inner pass %d)", len(b)), inner, ri, want1) {
+				return
+			}
+		}
+		if !check(vzSigShared, "second (outer)", b, false, want2) {
+			return
+		}
+		// The same iterator value ranged twice more.
+		where = "the same iterator value ranged again after all of the above"
+		g1, r1 = vzRange(it1, limit)
+		if !check(vzSigShared, "first", g1, r1, want1) {
+			return
+		}
+		g1, r1 = vzRange(it1, limit)
+		if !check(vzSigShared, "first (again)", g1, r1, want1) {
+			return
+		}
+		g2, r2 = vzRange(it2, limit)
+		if !check(vzSigShared, "second", g2, r2, want2) {
+			return
+		}
+		if !bytes.Equal(s1, seq1) || !bytes.Equal(s2, seq2) {
+			where = "at the end"
+			bad("generic", fmt.Sprintf("seq1 = %q, seq2 = %q", s1, s2))
+		}
+	})
+	if pan != nil {
+		return vrResult{OK: false, Observed: fmt.Sprintf("%s: panic: %v", where, pan), Expected: exp + "; no panic", Signature: "generic"}
+	}
+	return res
+}
+
+func vzGenCanonicalInterleaved(g *vrGen) {
+	cs := func(a, b []byte, k int) {
+		g.Case(map[string]any{"seq1": vrB(a), "seq2": vrB(b), "k": k})
+	}
+	// Exhaustive: every ordered pair of sequences over ACGT, the longer one of
+	// length 0..L1, the shorter one of length 0..L2 (so seq2 is shorter than,
+	// as long as, and longer than seq1), every k in 1..3.
+	L1, L2 := 3, 2
+	if g.Thorough() {
+		L1, L2 = 4, 3
+	}
+	var seconds [][]byte
+	vrWords([]byte("ACGT"), L2, func(w []byte) bool {
+		seconds = append(seconds, append([]byte(nil), w...))
+		return true
+	})
+	done := vrWords([]byte("ACGT"), L1, func(w []byte) bool {
+		for _, v := range seconds {
+			for k := 1; k <= 3; k++ {
+				cs(w, v, k)
+				if len(v) <= L1 && len(w) > L2 { // the mirrored pair is not enumerated otherwise
+					cs(v, w, k)
+				}
+			}
+		}
+		return !g.Expired()
+	})
+	g.Exhaustive(done)
+	maxLen := 40
+	if g.Thorough() {
+		maxLen = 200
+	}
+	for !g.Expired() {
+		a := vrRandWord(g.Rand, []byte(vzAlpha10), 1+vzSkew(g.Rand, maxLen))
+		var n int
+		switch g.Rand.Intn(4) {
+		case 0: // shorter
+			n = g.Rand.Intn(len(a))
+		case 1: // equal length
+			n = len(a)
+		case 2: // longer
+			n = len(a) + 1 + g.Rand.Intn(maxLen)
+		default:
+			n = vzSkew(g.Rand, maxLen)
+		}
+		b := vrRandWord(g.Rand, []byte(vzAlpha10), n)
+		if n > 0 && g.Rand.Intn(4) == 0 { // related content: the reverse complement of a (cut or extended)
+			rc, _ := vzRevComp(a)
+			copy(b, rc)
+		}
+		cs(a, b, 1+g.Rand.Intn(5))
+	}
+}
+
+// ---------------------------------------------------------------------------
 
 func vzClauses() []vrClause {
+	const interBound = "exhaustive: every ordered pair (seq1, seq2) over ACGT with the longer one of length 0..3 (thorough 0..4) and the shorter one of length 0..2 (0..3), every k in 1..3; then random seq1 over aAcCgGtTnN of length 1..41 / 1..201 with seq2 shorter, equal, longer or of unrelated length (1 in 4 carrying the reverse complement of seq1), k in 1..5"
+	const interRule = "trivial: one of the two sequences has no k-mer, k < 1, or a sequence not over aAcCgGtTnN. Items are copied when received; every item must be the oracle's canonical k-mer of its OWN sequence when (a) two iterators are pulled alternately through iter.Pull, (b) for each item of one the other is ranged completely (same value, and fresh values the other way round), (c) the same iterator value is ranged again"
 	return []vrClause{
 		{Prop: "C12", Name: "revcomp-spec",
 			Bound: "exhaustive: every src over aAcCgGtTnN of length 0..4 (thorough 0..5) with empty dst; plus 4 dst prefixes x length 0..2 (3), every byte value 0..255 at every position of 4 short contexts, then random src (length <= 60 / 400, 1 in 4 with one byte outside the alphabet) x random dst until the time share is used; each case is run with 0, 1 and ample spare capacity in dst",
@@ -1217,6 +1417,9 @@ func vzClauses() []vrClause {
 			Bound: "exhaustive: every seq over aAcCgGtTnN of length 0..3 (thorough 0..4) and over ACGT of length 0..6 (0..7), every k in 1..len+1; then random seq (5 alphabets, length <= 60 / 300, 1 in 3 made reverse-palindromic) x k (small, near len, or far beyond len); k <= 0 is outside the statement and not generated",
 			Rule:  "trivial: k > len(seq) (no items), k < 1, or seq not over aAcCgGtTnN",
 			Gen:   vzGenCanonical, Run: vzRunCanonical},
+		{Prop: "C12", Name: "canonical-interleaved",
+			Bound: interBound, Rule: interRule,
+			Gen: vzGenCanonicalInterleaved, Run: vzRunCanonicalInterleaved},
 
 		{Prop: "C13", Name: "to2bit",
 			Bound: "exhaustive: every src over aAcCgGtT of length 0..4 (thorough 0..6) and over ACGT up to length 7 (9), empty dst; plus 5 dst prefixes x short src, every byte value at every position of 7 contexts (lengths 1..9), then random src (length <= 60 / 400, 1 in 4 with a bad byte) x random dst; spare capacity of dst is pre-filled with 0xFF",
@@ -1253,5 +1456,8 @@ func vzClauses() []vrClause {
 			Bound: "exhaustive: every seq over aAcCgGtTnN of length 0..3 (thorough 0..4) and over ACGT up to length 5 (7), every k in 1..len+1, every stopping position 0..N (consumer accepts `stop` items and declines the next); then random seq (length <= 41 / 201) with every stopping position when N <= 12, else 6 positions",
 			Rule:  "trivial: the uninterrupted run has no items, or k < 1 / stop < 0 / seq not over aAcCgGtTnN",
 			Gen:   vzGenCanonicalStop, Run: vzRunCanonicalStop},
+		{Prop: "C18", Name: "canonical-interleaved",
+			Bound: interBound, Rule: interRule,
+			Gen: vzGenCanonicalInterleaved, Run: vzRunCanonicalInterleaved},
 	}
 }
